@@ -419,6 +419,9 @@ class FitBase(FileIOMixin, object):
         self._fitter.reset_minimizer()
         for _error_name in self._BASIC_ERROR_NAMES:
             self._nexus.get(_error_name).mark_for_update()
+        if self._cost_function_pointwise is not None and not self._implicit_no_errors:
+            # the pointwise cost function chosen by the last fit ignores correlations: use the general one again
+            self._fitter.parameter_to_minimize = self._cost_function.name
         if self._implicit_no_errors:
             _cost_function_class, _kwargs = self._STRING_TO_COST_FUNCTION["chi2_covariance"]
             self._cost_function = _cost_function_class(**_kwargs)
@@ -492,6 +495,8 @@ class FitBase(FileIOMixin, object):
             self._nexus.get(_error_name).mark_for_update()
         if self._implicit_no_errors and self.has_errors:
             self._on_error_change()
+        elif self._cost_function_pointwise is not None and not self._implicit_no_errors:
+            self._fitter.parameter_to_minimize = self._cost_function.name
 
     @property
     def data_error(self):
